@@ -4,7 +4,7 @@ set -e
 . /verif/env.sh
 cd $VERIF
 mkdir -p $GEN
-SDK=$(go list -m -f '{{.Dir}}' github.com/cosmos/cosmos-sdk)
+SDK=$(go list $MODFLAG -m -f '{{.Dir}}' github.com/cosmos/cosmos-sdk)
 [ -f "$SDK/baseapp/state.go" ] || { echo "cannot locate cosmos-sdk baseapp" >&2; exit 2; }
 cat "$SDK/baseapp/state.go" overlays/baseapp_fork_appendix.go.txt > $GEN/baseapp_state.go.new
 cmp -s $GEN/baseapp_state.go.new $GEN/baseapp_state.go 2>/dev/null || mv $GEN/baseapp_state.go.new $GEN/baseapp_state.go
@@ -13,7 +13,7 @@ cat > $GEN/overlay.json <<J
 {"Replace": {"$SDK/baseapp/state.go": "$GEN/baseapp_state.go"}}
 J
 # key store with scheduler shims (C20): import rewrite of the working-tree file
-KS=/repo/x/did/client/crypto/keystore.go
+KS=$REPO/x/did/client/crypto/keystore.go
 sed -e 's#^\t"sync"$#\tsync "verif/engine/sched/vsync"#' \
     -e 's#^\t"time"$#\ttime "verif/engine/sched/vtime"#' \
     -e 's#^\t"os"$#\tos "verif/engine/sched/vos"#' \
